@@ -51,7 +51,7 @@ type claimSet struct {
 	complete map[string]bool // functions all of whose obligations are claimed
 }
 
-func loadClaims(prop string) *claimSet {
+func loadClaims(prop string, tier string) *claimSet {
 	cs := &claimSet{names: map[string]bool{}, complete: map[string]bool{}}
 	data, err := os.ReadFile(filepath.Join(verifDir, "claims", prop+".txt"))
 	if err != nil {
@@ -60,6 +60,12 @@ func loadClaims(prop string) *claimSet {
 	for _, line := range strings.Split(string(data), "\n") {
 		line = strings.TrimSpace(line)
 		if line == "" || strings.HasPrefix(line, "#") {
+			continue
+		}
+		if strings.HasPrefix(line, "thorough ") {
+			if tier == "thorough" {
+				cs.names[strings.TrimSpace(line[9:])] = true
+			}
 			continue
 		}
 		if strings.HasPrefix(line, "complete ") {
@@ -137,7 +143,7 @@ func cmdCheck(args []string) {
 		os.Exit(3)
 	}
 	drift := cs.resolve(l)
-	claims := loadClaims(prop)
+	claims := loadClaims(prop, tier)
 
 	budget := 20
 	if tier == "thorough" {
@@ -235,7 +241,7 @@ func cmdCheck(args []string) {
 		}
 		base := strings.TrimSuffix(o.Name, "@outside-known-region")
 		claimed := claims.names[base] || claims.complete[o.Func]
-		return claimed && o.Result == "unknown" && !genClaims
+		return claimed && o.Result == "unknown" && !genClaims && !strings.HasSuffix(o.Name, "@known-region")
 	}
 	solveAll(results, budget*4, 16, retry)
 
@@ -290,6 +296,15 @@ func cmdCheck(args []string) {
 			}
 			if !ok {
 				undecided = append(undecided, fmt.Sprintf("%s: %s", o.Name, o.Result))
+			}
+		}
+	}
+	if os.Getenv("VERIF_TIMING") != "" {
+		for _, r := range results {
+			for _, o := range r.Obls {
+				if o.TimeS > 3 {
+					fmt.Printf("timing: %6.1fs %-8s %-7s %s\n", o.TimeS, o.Result, o.Solver, o.Name)
+				}
 			}
 		}
 	}
@@ -354,6 +369,11 @@ func writeClaims(prop string, results []*FuncResult) {
 			if good {
 				ok++
 				fl = append(fl, o.Name)
+			} else if o.Result == "proved" || o.Result == "sat-ok" {
+				// slow proof: claimed in the thorough tier only
+				all = false
+				fl = append(fl, "thorough "+o.Name)
+				fmt.Printf("thorough only: %-9s %6.2fs %s\n", o.Result, o.TimeS, o.Name)
 			} else {
 				all = false
 				fmt.Printf("not claimed: %-9s %6.2fs %s\n", o.Result, o.TimeS, o.Name)
